@@ -1,5 +1,5 @@
 """C11 — close semantics and shared-handle lifecycle."""
-from rl import (entry_methods, loc_endswith, path_cond, trace_summary, where, const_of, fmt_val, fmt_loc, fields_of)
+from rl import (method_role, entry_methods, loc_endswith, path_cond, trace_summary, where, const_of, fmt_val, fmt_loc, fields_of)
 from common import scan_field_writes, scan_calls, scan_aggregates, contains, poll_variant
 from engine import NONE
 from lib import CheckerError
@@ -139,11 +139,12 @@ def run(C, R):
             # R3 / R4 on the other entry methods
             naccept = 0
             for m in entry_methods(F, CG, st):
-                if m.get('name') in ('close', 'clear'):
+                role = method_role(F, m)[0]
+                if m['path'] == close['path'] or role == 'other':
                     continue
                 paths = E.run(m['path'])
                 R.add_paths(m['path'], len(paths))
-                is_send = 'send' in m.get('name', '')
+                is_send = role == 'send'
                 for path in paths:
                     if path.exit != 'return':
                         continue
@@ -180,7 +181,7 @@ def run(C, R):
                                    '%s on a closed channel does not hand the caller\'s own value back (returns %s)'
                                    % (m['path'], fmt_val(path.ret)), '%s:%s' % (m['file'], m['line']),
                                    {'trace': trace_summary(path)})
-                    if 'receive' in m.get('name', ''):
+                    if role == 'receive':
                         delivers = from_token(path.ret) or contains(path.ret, ('init', (('P', 'self'), 'value'))) \
                             or any(e['k'] == 'call' and e['name'] in ('pop', 'clone') and contains(path.ret, e['ret'])
                                    for e in path.events if e.get('ret'))
